@@ -274,6 +274,7 @@ class LoopRec:
     body_seq: Tuple[int, int] = (0, 0)
     parent: Optional[int] = None
     target: Optional[T] = None
+    term: Optional[T] = None     # the comprehension term (comp loops)
 
 
 @dataclass
@@ -1176,7 +1177,9 @@ class _Frame:
         elts = tuple(self.eval(e, inner) for e in elt_nodes)
         self.loops = old_loops
         elt = elts[0] if len(elts) == 1 else T("tuple", (elts,))
-        return T("comp", (kind, elt, tuple(gens)))
+        res = T("comp", (kind, elt, tuple(gens)))
+        self.rec.loops[cid].term = res
+        return res
 
     def e_ListComp(self, n, st):
         return self._comp("list", n, [n.elt], st)
